@@ -22,7 +22,10 @@ Runtime side (this file):
   prints arbitrary finite floats (every value it can print); filling the
   template with the original values and loading the result with YAML gives the
   original parameters;
-* contracts of the float <-> text oracles, tested on many floats each run.
+* contracts of the float <-> text oracles, tested on many floats each run;
+* size (oracles only, nothing handed to Coq): one dataset per quick run whose two
+  master curves have more than 1024 levels each (thorough: 1000 .. 8192), through
+  every oracle above.
 
 Known findings (listed by the lead in known_findings.json):
   C19/ins-width     columns 3:24 lose characters of a printed value of 23+ characters
@@ -455,8 +458,9 @@ def levels_without_value(base, values, start=0):
     return missing, k
 
 
-def name_levels(missing, what):
-    return ', '.join('level %r mm (crossed by %d %s)' % (z, n, what) for z, n in missing)
+def name_levels(missing, what, limit=6):
+    return ', '.join('level %r mm (crossed by %d %s)' % (z, n, what) for z, n in missing[:limit]) + (
+        ' and %d more up to level %r mm' % (len(missing) - limit, missing[-1][0]) if len(missing) > limit else '')
 
 
 def relation(ds):
@@ -571,6 +575,12 @@ def check_pair(ds, partext, out, coq, case, sane):
             if sy_t == tr_t:
                 out.violation('oracle', 'pestfiles %s %s raised %s: %s on a consistent %s parameter file'
                               % (key[0], key[1], type(exc).__name__, exc, sy_t), case=case)
+            elif key[0] == 'rise':
+                # the rise calibration concerns the specific yield alone (the template copies the transmissivity
+                # section literally): a file with another kind of transmissivity is as good as any
+                out.violation('oracle', 'pestfiles rise %s raised %s: %s on a parameter file with %s specific yield '
+                              '(and %s transmissivity, which the rise calibration does not estimate)'
+                              % (key[1], type(exc).__name__, exc, sy_t, tr_t), case=case)
         coq['files'].append(('(%s, %s)' % (model[key], impl), case,
                              'pestfiles %s %s (%s/%s)' % (key[0], key[1], sy_t, tr_t)))
     consistent = sy_t == tr_t
@@ -603,7 +613,7 @@ def oracle_files(ds, par, lines, out, coq, case, consistent):
                           'hold %s lines' % (which, counts, want), case=case)
         names = [py_words(l)[0] for l in secs[0]]
         holders = py_placeholders(tpl)
-        if consistent and [n.lower() for n in names] != [h.lower() for h in holders]:
+        if (consistent or which == 'rise') and [n.lower() for n in names] != [h.lower() for h in holders]:
             out.violation('oracle', '%s control file parameters %s are not the template placeholders %s'
                           % (which, names, holders), case=case)
         if not consistent:
@@ -832,7 +842,7 @@ def oracle_end_to_end(ds, parfile, par, lines, out, coq, case):
             out.violation('oracle', '`spowtd simulate %s` tabulates %d levels, the measured master %s curve '
                           '(recomputed from the base tables) has %d; not tabulated: %s; tabulated but not in the '
                           'curve: %r' % (name, len(rows), name, len(base), name_levels(missing, what) or 'none',
-                                         extra), case=case)
+                                         extra[:6]), case=case)
     for name, text, ins, rows, levels, meas in (
             ('rise', rise_obs, lines.get(('rise', 'ins')), rise_rows, ds.rise_levels, ds.rise_vals),
             ('curves', rise_obs + rec_obs, lines.get(('curves', 'ins')), rise_rows + rec_rows,
@@ -1060,6 +1070,53 @@ def check_dataset(ds_seed, tag, npar, nsane, nprinted, out, coq, only=None, top=
     return ds
 
 
+def check_long_dataset(ds_seed, tag, target, kinds, out):
+    """A dataset whose master rise AND recession curves (measured on the base tables) have more than `target`
+    levels each (harness.gen_pest.gen_long_curves_record), with one parameter file the simulator accepts: all
+    the oracles of an ordinary pair (counts, names, observation values against the base tables, alignment of
+    the instruction files, template round trip, `simulate` in both modes read through the instruction files).
+    Judged by the oracles alone: nothing of it is handed to Coq (reading files of thousands of lines as
+    literals would dominate the run)."""
+    rng = C.rng_for(ds_seed, PROP, 'dataset-long')
+    rec = GP.gen_long_curves_record(rng, target)
+    rec['et'] = [rng.choice([0.125, 0.0, 0.25, 0.0625]) for _ in range(5)]
+    ds = None
+    for _ in range(4):
+        ds = DS(rec, tag)
+        if ds.error is not None:
+            raise RuntimeError('long dataset: the workflow failed: %r' % ds.error)
+        if min(len(ds.base_rise), len(ds.base_rec)) > target:
+            break
+        out.count('dataset-long:step-halved')
+        rec = GP.gen_long_curves_record(rng, target, rec=rec)
+    else:
+        raise RuntimeError('no record with more than %d levels on both master curves' % target)
+    out.count('dataset-long')
+    for size in GP.BLOCK_SIZES:
+        if min(len(ds.base_rise), len(ds.base_rec)) > size:
+            out.count('dataset-long:both master curves of more than %d levels' % size)
+    out.count('levels:' + relation(ds))
+    out.count('levels', len(ds.rise_rows) + len(ds.rec_rows))
+    text = gen_params(C.rng_for(ds_seed, PROP, 'par-long'), kinds[0], kinds[1], sane=(ds.zmin, ds.zmax))
+    case = dict(level='long', ds_seed=ds_seed, target=target, kinds=list(kinds))
+    before = len(out.violations)
+    check_pair(ds, text, out, dict(files=[], readers=[], ins=[]), case, True)
+    if len(out.violations) == before:
+        out.nontriv(('long', ds_seed, len(ds.base_rise), len(ds.base_rec)))
+    return ds
+
+
+def long_plan(seed, tier):
+    """(dataset seed, target, (specific yield kind, transmissivity kind)).  Quick: one dataset past 1024 levels with
+    the PEATCLSM file (its transmissivity is a closed form; the spline class integrates the conductivity anew at
+    every node of every level); thorough: more sizes, both kinds."""
+    if tier == 'quick':
+        return [(seed * 1000 + 800, 1024, ('peatclsm', 'peatclsm'))]
+    return [(seed * 1000 + 800 + i, t, k) for i, (t, k) in enumerate([
+        (1024, ('peatclsm', 'peatclsm')), (1000, ('spline', 'spline')), (2048, ('peatclsm', 'peatclsm')),
+        (4096, ('peatclsm', 'peatclsm')), (8192, ('peatclsm', 'peatclsm'))])]
+
+
 def run(ctx, out):
     C.import_spowtd()
     seed, tier = ctx['seed'], ctx['tier']
@@ -1075,13 +1132,19 @@ def run(ctx, out):
         check_dataset(seed * 1000 + 500 + i, 'top%d' % i, 4, 2, 0, out, coq, top=top)
     check_golden(out, coq)
     run_coq(coq, out)
+    # long master curves: judged by the oracles alone (nothing of them goes to Coq)
+    for i, (ds_seed, target, kinds) in enumerate(long_plan(seed, tier)):
+        guarded(out, dict(level='long', ds_seed=ds_seed, target=target, kinds=list(kinds)),
+                'long dataset: the whole workflow and the files on master curves of more than %d levels' % target,
+                check_long_dataset, ds_seed, 'long%d' % i, target, kinds, out)
     out.rule = ('Pairs (dataset, parameter file): datasets = synthetic saw-tooth records carried through the real CLI '
                 '(load..rise, recession), parameter files = spline / peatclsm / the two mixed forms, 2-9 knots, '
                 'values 1e-15..1e16 incl. texts such as 1.0e-05 that str() prints without a dot; the first 2 files '
                 'per dataset are accepted by the simulator (end-to-end runs of `simulate`); plus datasets whose storms '
                 'all end inside one grid cell above / at / below the surface. Observation lines and simulate tables '
                 'are also judged against the master curves recomputed from the base tables (a level without an '
-                'observation is named). Non-trivial: a '
+                'observation is named). One dataset (thorough: five) whose two master curves have more than 1024 '
+                '(thorough: 1000 .. 8192) levels each, through every oracle but not through Coq. Non-trivial: a '
                 'consistent pair whose six files were compared (distinct by dataset and file text), an '
                 'end-to-end run whose every extracted value equals the simulated one, a printed finite float '
                 'of <= 22 characters extracted exactly (distinct by value).')
@@ -1107,7 +1170,9 @@ def replay(case, out):
     if lvl == 'contract':
         check_contracts(C.rng_for(0, PROP, 'contracts'), out, 2000)
         return
-    if lvl == 'golden':
+    if lvl == 'long':
+        check_long_dataset(case['ds_seed'], 'replay_long', case['target'], tuple(case['kinds']), out)
+    elif lvl == 'golden':
         check_golden(out, coq)
     else:
         only = ('printed',) if lvl == 'printed' else ('pair', case['j']) if 'j' in case else None
